@@ -2,7 +2,7 @@
 # mkmut.sh <PROP-name> <repo-relative file> <old> <new>   -> selftest/mutants/<PROP-name>.patch
 set -e
 name=$1; file=$2; old=$3; new=$4
-cd /repo
+cd ${MUTREPO:-/repo}
 python3 - "$file" "$old" "$new" <<'EOF'
 import sys
 f,old,new=sys.argv[1:4]
